@@ -294,6 +294,11 @@ fn chaos_delay(kind: u32) {
 pub struct WakeInner {
     flag:  AtomicBool,
     wakes: AtomicU32,
+    /// generation of the waker handed out last; in strict mode only that waker wakes (the `Future` contract: only the waker of the most recent poll has to be
+    /// honoured -- a stream that moved to another task is no longer woken through the old task's waker)
+    gen:    AtomicU32,
+    strict: AtomicBool,
+    stale_wakes: AtomicU32,
     tid:   usize,
     sh:    *const Shared,      // SER
     co:    *const FreeCoord,   // FREE
@@ -304,13 +309,14 @@ unsafe impl Sync for WakeInner {}
 /// The harness' executor-side wake flag: `waker()`s made from it set the flag (and make a parked thread runnable)
 #[derive(Clone)]
 pub struct WakeFlag(pub Arc<WakeInner>);
-struct WakerShell(Arc<WakeInner>);
+struct WakerShell(Arc<WakeInner>, u32);
 impl Wake for WakerShell {
     fn wake(self: Arc<Self>) { self.wake_by_ref() }
-    fn wake_by_ref(self: &Arc<Self>) { self.0.do_wake() }
+    fn wake_by_ref(self: &Arc<Self>) { self.0.do_wake(self.1) }
 }
 impl WakeInner {
-    fn do_wake(&self) {
+    fn do_wake(&self, gen: u32) {
+        if self.strict.load(SeqCst) && gen != self.gen.load(SeqCst) { self.stale_wakes.fetch_add(1, SeqCst); return }
         self.wakes.fetch_add(1, SeqCst);
         self.flag.store(true, SeqCst);
         if !self.sh.is_null() { unsafe { &*self.sh }.notify_wake(self.tid) }
@@ -325,20 +331,24 @@ impl WakeFlag {
             Tl::Free { co, tid } => (std::ptr::null(), co, tid),
             Tl::None => (std::ptr::null(), std::ptr::null(), usize::MAX),
         };
-        WakeFlag(Arc::new(WakeInner { flag: AtomicBool::new(false), wakes: AtomicU32::new(0), tid, sh, co }))
+        WakeFlag(Arc::new(WakeInner { flag: AtomicBool::new(false), wakes: AtomicU32::new(0), gen: AtomicU32::new(0), strict: AtomicBool::new(false), stale_wakes: AtomicU32::new(0), tid, sh, co }))
     }
     /// a *new* waker object each call (so `will_wake()` says false against earlier ones).
     /// Every waker ever handed out is kept alive until the next run starts: the library reads its waker table without a lock
     /// (`wake_stream`), so a waker being replaced or removed may still be in use by a producer -- the behavioural consequence
     /// (a lost wake-up) is what C04 observes; the run must not die inside the monitor's own objects.
     pub fn fresh_waker(&self) -> Waker {
-        let w = Waker::from(Arc::new(WakerShell(self.0.clone())));
+        let gen = self.0.gen.fetch_add(1, SeqCst) + 1;
+        let w = Waker::from(Arc::new(WakerShell(self.0.clone(), gen)));
         RETAINED_WAKERS.lock().unwrap().push(w.clone());
         w
     }
     pub fn is_set(&self) -> bool { self.0.flag.load(SeqCst) }
     pub fn take(&self) -> bool { self.0.flag.swap(false, SeqCst) }
     pub fn wakes(&self) -> u32 { self.0.wakes.load(SeqCst) }
+    /// from now on only the waker handed out last wakes; invocations of older ones are counted and ignored
+    pub fn only_the_latest_waker_counts(&self) { self.0.strict.store(true, SeqCst) }
+    pub fn stale_wakes(&self) -> u32 { self.0.stale_wakes.load(SeqCst) }
 }
 
 /// Parks the calling harness thread until its flag is set. Returns `false` if the run reached quiescence instead
